@@ -10,7 +10,7 @@ use crate::history::{HasRec, History, OpRec, Res, Tag};
 use crate::interp::UNTIMED;
 use crate::oracle::{self, Verdict, Violation};
 use crate::props::{assumptions_common, outcome, scale_cases, KNOWN_SIZE, WRAPPED};
-use crate::sched::{run_sched, run_sched_with, unmodelled_sync, DfsChooser};
+use crate::sched::{run_sched, run_sched_with, run_seq_e1, unmodelled_sync, DfsChooser};
 use crate::sched::run_seq_e1 as run_seq;
 
 pub fn assumptions_sched() -> Vec<String> {
@@ -312,6 +312,41 @@ pub fn judge_c06(h: &History) -> Outcome {
     finish(h, verdict, nontrivial, cl)
 }
 
+/// C16 under schedules: pulls with boundary chunk sizes racing with each other; the verdict is the one-cursor
+/// model in u128 arithmetic (no duplicate, no out-of-range or wrapped position, gap-free prefix, linearizable).
+pub fn judge_c16(h: &History) -> Outcome {
+    let verdict = if undecided(h) {
+        Ok(())
+    } else {
+        panic_guard(h)
+            .and_then(|_| oracle::no_duplicates(h))
+            .and_then(|_| oracle::c02_index_fidelity(h))
+            .and_then(|_| oracle::c04_invariants(h))
+            .and_then(|_| oracle::prefix_at_quiescence(h).map(|_| ()))
+            .and_then(|_| oracle::c04_linearizable(h).map(|_| ()))
+    };
+    let huge = h.ops.iter().filter(|o| o.is_pull() && o.requested() > usize::MAX / 5).count();
+    let threads_with_huge = {
+        let mut t: Vec<usize> = h.ops.iter().filter(|o| o.is_pull() && o.requested() > usize::MAX / 5).map(|o| o.thread).collect();
+        t.sort();
+        t.dedup();
+        t.len()
+    };
+    let mut cl = sched_classes(h);
+    if threads_with_huge >= 2 {
+        cl.push("racing-boundary-sizes");
+    }
+    if threads_with_huge >= 3 {
+        cl.push("three-or-more-threads-with-boundary-sizes");
+    }
+    let nontrivial = huge >= 2 && threads_with_huge >= 2 && h.sched.switches_in_op >= 1;
+    finish(h, verdict, nontrivial, cl)
+}
+
+fn eval_c16(case: &Case) -> Outcome {
+    judge_c16(&run_sched(case))
+}
+
 pub fn judge_c07(h: &History) -> Outcome {
     let verdict: Verdict = oracle::c07_exclusive_ordered(h);
     let nontrivial = h.sched.probe_handoffs >= 1;
@@ -533,7 +568,34 @@ evals! {
 /// waits); element clones are not yield points. The interleaving a schedule denotes therefore does not
 /// depend on how many atomic accesses an operation performs, and the two executions can be compared
 /// thread by thread.
+/// C13 with an injected clone panic that the caller catches (single-threaded, no preemption): the operation in
+/// which the clone panicked is not compared, every later operation must equal the underlying iterator's.
+pub fn eval_c13_after_clone_panic(case: &Case) -> Outcome {
+    // the caller always goes on after the caught panic here (that is the point of the comparison)
+    let mut acase = case.clone();
+    acase.keep_going = true;
+    let case = &acase;
+    let ha = run_seq_e1(case);
+    let mut ucase = case.clone();
+    ucase.kind = case.kind.underlying();
+    ucase.fault = None;
+    let hu = run_seq_e1(&ucase);
+    let verdict = if ha.sched.step_bound_hit || hu.sched.step_bound_hit || ha.sched.hang || hu.sched.hang { Ok(()) } else { crate::lockstep::compare(&ha, &hu) };
+    let fired_at = ha.ops.iter().position(|o| matches!(&o.res, Res::Panicked(m) if m == crate::hooks::INJECTED));
+    let later_chunk = fired_at.map_or(false, |i| ha.ops[i + 1..].iter().any(|o| matches!(o.res, Res::Chunk { .. } | Res::One { .. })));
+    let mut cl = vec![case.kind.name()];
+    if fired_at.is_some() {
+        cl.push("fault-fired");
+    }
+    let mut o = finish(&ha, verdict, fired_at.is_some() && later_chunk, cl);
+    o.evals = 2;
+    o
+}
+
 pub fn eval_c13(case: &Case) -> Outcome {
+    if case.fault.is_some() {
+        return eval_c13_after_clone_panic(case);
+    }
     crate::hooks::set_clone_yields(false);
     crate::hooks::set_coarse(true);
     let ha = run_sched(case);
@@ -710,6 +772,8 @@ fn cfg_small(kinds: &[Kind]) -> GenCfg {
     c.w_loops = 0;
     c.w_drain_elem = 0;
     c.sched_len = 0;
+    c.large = 0;
+    c.long_spins = false;
     c
 }
 
@@ -945,12 +1009,21 @@ pub fn check(ctx: &mut Ctx) -> Option<Meta> {
             "E1 part: every adaptor kind and its underlying iterator run the same generated multi-threaded program under the same generated *coarse* schedule (threads switch only before the first shared action of an operation, inside the wrapped probe, at closures and when the running thread waits; clones are not yield points), so the interleaving does not depend on the number of atomic accesses per operation; oracle: thread by thread identical results (indices, chunk boundaries, lengths, end / skip behaviour, elements), remainder, source intact; non-trivial = >=2 threads, >=1 context switch and a chunk pull or skip".into(),
             vec![
                 Plan { name: "sched-lockstep", cfg: { let mut c = GenCfg::base(crate::props::ADAPTORS); c.kinds.extend_from_slice(&[Kind::ClonedIterRef, Kind::CopiedIterRef, Kind::ClonedIterRef, Kind::CopiedIterRef]); c.max_len = if t { 16 } else { 8 }; c.min_threads = 2; c.max_threads = 4; c.max_ops = 4; c.w_skip = 3; c.w_len = 1; c.w_has = 1; c.terminal_mode = 2; c.pre_pulls = true; c.sched_len = if t { 300 } else { 160 }; c }, eval: eval_c13, quick: 30_000, thorough_factor: 25 },
+                // a clone panics inside an operation, the caller catches the panic and goes on with the same iterator
+                // and the same buffered handle
+                Plan { name: "sched-lockstep-after-clone-panic", cfg: { let mut c = GenCfg::base(&[Kind::ClonedSlice, Kind::ClonedVecRef, Kind::ClonedArrRef, Kind::ClonedIterRef, Kind::ClonedIterRef]); c.max_len = if t { 24 } else { 12 }; c.max_threads = 1; c.max_ops = 8; c.w_bufnext = 9; c.w_bufnew = 3; c.w_chunk = 4; c.w_len = 1; c.w_skip = 1; c.w_loops = 0; c.w_drain_elem = 0; c.fault_sites = vec![FaultSite::Clone]; c.terminal_mode = 2; c.pre_pulls = true; c.large = 0; c }, eval: eval_c13, quick: 20_000, thorough_factor: 25 },
             ],
         ),
         "C15" => (
             "E1 part: consuming kinds with heap-owning element layouts used concurrently under generated schedules (pulls, partial chunks, buffered pulls, skips, drop or into_seq_iter); the whole case runs twice inside the gated counting allocator; oracle: allocation balance exactly zero; non-trivial = >=2 threads, >=1 context switch and an undelivered part".into(),
             vec![
                 Plan { name: "sched-alloc-balance", cfg: { let mut c = GenCfg::base(crate::props::CONSUMING); c.layouts = vec![Layout::Boxed, Layout::Str, Layout::Tracked]; c.max_len = if t { 16 } else { 8 }; c.min_threads = 2; c.max_threads = 4; c.max_ops = 4; c.w_skip = 2; c.terminal_mode = 2; c.extra_cap = true; c.sched_len = if t { 300 } else { 120 }; c }, eval: eval_c15, quick: 10_000, thorough_factor: 25 },
+            ],
+        ),
+        "C16" => (
+            "E1 part: 2-4 virtual threads (one case in four: the same operations on every thread) pull chunks whose sizes come from {usize::MAX, MAX-1, MAX/2, MAX/2+1, MAX/3+1, MAX/4, MAX/4+1, 2^62-1, 2^63, MAX-len} mixed with ordinary sizes, on all source kinds, under generated schedules; oracle: the one-cursor model in u128 arithmetic (no position delivered twice, none outside the source, gap-free prefix, linearizable); non-trivial = >=2 threads made a pull with a size above MAX/5 and >=1 context switch inside an operation".into(),
+            vec![
+                Plan { name: "sched-racing-boundary-sizes", cfg: { let mut c = cfg_e1(t); c.huge_chunks = true; c.huge_often = true; c.w_chunk = 10; c.w_bufnext = 6; c.w_bufnew = 3; c.w_len = 1; c.min_threads = 2; c.max_ops = 3; c }, eval: eval_c16, quick: 30_000, thorough_factor: 25 },
             ],
         ),
         "C10" => (
@@ -990,6 +1063,8 @@ pub fn check(ctx: &mut Ctx) -> Option<Meta> {
             "E1 histories with one injected panic: the k-th call of the wrapped probe's next, the k-th element clone or the k-th closure invocation (k enumerated 0..len+1 by the generator), under generated schedules; oracle: the other threads complete (no all-waiting state), no duplicate delivery, identity ledger exactly-once for consumed collections; non-trivial = the fault fired while >=1 other thread was inside an operation or waiting".into(),
             vec![
                 Plan { name: "sched-fault", cfg: cfg_c18(t), eval: eval_c18, quick: 40_000, thorough_factor: 25 },
+                // the pull that panics is made by a destructor while its thread already unwinds from a user panic
+                Plan { name: "sched-fault-in-unwinding-puller", cfg: { let mut c = cfg_c18(t); c.unwind_pull = true; c.fault_sites = vec![FaultSite::ProbeNext, FaultSite::ProbeNext, FaultSite::Clone]; c }, eval: eval_c18, quick: 15_000, thorough_factor: 25 },
                 Plan { name: "seq-fault", cfg: seq_of(cfg_c18(t), t), eval: eval_c18_seq, quick: 20_000, thorough_factor: 25 },
             ],
         ),
@@ -1031,6 +1106,7 @@ pub fn eval_for(prop: &str, engine: &str) -> Option<fn(&Case) -> Outcome> {
         ("C10", false) => eval_c10,
         ("C13", false) => eval_c13,
         ("C15", false) => eval_c15,
+        ("C16", false) => eval_c16,
         ("C09", _) => eval_c09,
         ("C11", false) => eval_c11,
         ("C11", true) => eval_c11_seq,
